@@ -388,7 +388,12 @@ def gen_program(rnd, nfiles=None, opts=None, base=None, tries=30, charset="bk", 
             blobs["blob9.bin"] = blob
             host = rnd.choice(files)
             pos = rnd.randrange(len(host.stmts) + 1)
-            host.stmts[pos:pos] = [apm.insert_file("blob9.bin"), apm.simple(".even")]
+            ins_st = apm.insert_file("blob9.bin")
+            host.stmts[pos:pos] = [ins_st, apm.simple(".even")]
+            if opts.get("late_path", True) and rnd.random() < 0.25:
+                # the path spelled with a <n> chunk given by a constant defined anywhere in the file: the bytes take their room all the same
+                ins_st.spell = 'blob"<pth9q>".bin'
+                host.stmts.insert(rnd.randrange(len(host.stmts) + 1), apm.assign("pth9q", apm.num(0o71)))
         nf = len(files)
         if opts.get("shadow", True) and nf >= 2 and rnd.random() < 0.25 and not any(st.k == "extern" for f in files for st in f.stmts):
             # a name exported by one file (a label, or a constant whose value is final at once) and defined privately, further down,
